@@ -457,6 +457,9 @@ class XMLResource(XMLResourceLoader):
             if self.fp.closed:
                 msg = f"can't open {self!r}: its file-like object has been closed"
                 raise XMLResourceOSError(msg)
+            elif getattr(getattr(self, '_lazy_lock', None), 'locked', bool)():
+                # Don't rewind the file-like object that a running iteration is reading
+                raise XMLResourceError(f"lazy resource {self!r} is already under iteration")
             elif self.fp.seekable() and self.fp.seek(0) != 0:
                 msg = f"can't open {self!r}: its file-like object can't be rewound"
                 raise XMLResourceOSError(msg)
